@@ -345,7 +345,10 @@ def aggregate(agg, group, name, name_given=True):
             t = t + v
         return t
     if agg == 'avg':
-        return sum(nn) / len(nn)
+        t = nn[0]
+        for v in nn[1:]:
+            t = t + v
+        return t / len(nn)
     if agg == 'median':
         s = sorted(nn)
         m = len(s) // 2
